@@ -473,6 +473,9 @@ func c01mrScan(im *c01mrImporter, rel string) ([]string, error) {
 		if firstErr == nil {
 			firstErr = e
 		}
+		if os.Getenv("C01MR_ERRS") != "" {
+			fmt.Fprintf(os.Stderr, "typeerr %v\n", e)
+		}
 	}}
 	path := c01mrModule + "/" + rel
 	pkg, _ := conf.Check(path, im.fset, files, info)
@@ -567,7 +570,9 @@ func c01mrScan(im *c01mrImporter, rel string) ([]string, error) {
 		}
 		walk(f, "<file>", f)
 	}
-	_ = firstErr
+	if firstErr != nil && os.Getenv("C01MR_PROF") != "" {
+		fmt.Fprintf(os.Stderr, "typecheck %s: first error: %v\n", rel, firstErr)
+	}
 	return facts, nil
 }
 
@@ -630,7 +635,7 @@ func c01mrMain(args []string) error {
 	count := map[string]int{}
 	var out bytes.Buffer
 	fmt.Fprintf(&out, "# map-order entry points in: %s\n", strings.Join(pats, " "))
-	fmt.Fprintf(&out, "# classes: sorted-afterwards | order-insensitive | not-a-map | outside-replay | test-or-debug-only | SUSPECT | FINDING | UNCLASSIFIED\n")
+	fmt.Fprintf(&out, "# classes: sorted-afterwards | order-insensitive | not-a-map | outside-replay | test-or-debug-only | SUSPECT | UNCLASSIFIED\n")
 	lines := make([]string, 0, len(all))
 	for _, f := range all {
 		count[f]++
